@@ -47,7 +47,7 @@ func sortInts(a []int) {
 func init() {
 	register(&Check{
 		ID:     "C12",
-		Rule:   "birth moments: every day of the birth-year set (quick 20 years, thorough ~400 years: stride-31 years over 1..9800 plus every other year 1890..2060) at 00:30 and 23:30, plus {t-2h, t-1s, t, t+1s, t+2h} around every Jie instant of those years; x gender {0,1} x start-offset school {1,2}; all 10 great periods; all annual and minor fortunes of one (gender, school) configuration per birth (rotating) and the first of each period for the others; monthly fortunes of the first year of every period. non-trivial = births within 2 h of a Jie instant or at 23:30, and configurations whose direction is backward",
+		Rule:   "birth moments: every day of the birth-year set (quick 20 years, thorough ~400 years: stride-31 years over 1..9800 plus every other year 1890..2060) at 00:30 and 23:30, plus {t-2h, t-1s, t, t+1s, t+2h} around every Jie instant of those years; x gender {0,1} x start-offset school {1,2}; all 10 great periods; all annual and minor fortunes of one (gender, school) configuration per birth (rotating) and the first of each period for the others; monthly fortunes of the first year of every period; plus, per birth year, all 72 ordered pairs of a 9-chart alphabet (same lunar year / other civil year, same civil year / other lunar year, same day / other time, next day, 60 years apart) evaluated back to back. non-trivial = births within 2 h of a Jie instant or at 23:30, and configurations whose direction is backward",
 		Assume: []string{"school-1 offset is judged to within 2 two-hour slots (a distance between two slot-quantised moments is ambiguous by one slot at each end; the statement does not fix slot indexing); school-2 offset to within 1 minute", "male = gender 1; yang year = even exact year stem"},
 		Shards: func(tier string, seed int64) []Shard {
 			ys := c12Years(tier, seed)
@@ -84,6 +84,39 @@ func runC12(w *W) {
 			c12Birth(w, d, t, ti)
 		}
 	})
+	// chart histories: every ordered pair (A, then B) of a small chart alphabet around each birth year is evaluated
+	// back to back against the same reference, so that B is also seen directly after a chart that shares its lunar
+	// year but not its civil year, its civil year but not its lunar year, its day but not its time, or its year pillar
+	// (60 years apart) — whatever the library remembers from A must not leak into B
+	for _, r := range w.Shard.Ranges {
+		for y := r[0]; y <= r[1]; y++ {
+			type chart struct {
+				y, m, d int
+				t       hms
+			}
+			alpha := []chart{{y, 1, 10, hms{0, 30, 0}}, {y, 6, 15, hms{0, 30, 0}}, {y, 6, 15, hms{23, 30, 0}}, {y, 6, 16, hms{0, 30, 0}}, {y, 12, 31, hms{23, 30, 0}},
+				{y + 1, 1, 1, hms{0, 30, 0}}, {y + 1, 1, 10, hms{0, 30, 0}}, {y + 1, 6, 15, hms{0, 30, 0}}, {y + 60, 6, 15, hms{0, 30, 0}}}
+			days := make([]*Day, len(alpha))
+			for i, c := range alpha {
+				if c.y > 9990 {
+					continue
+				}
+				dd := &Day{J: r1JDN(c.y, c.m, c.d), Y: c.y, M: c.m, D: c.d, Ymd: fmt.Sprintf("%04d-%02d-%02d", c.y, c.m, c.d)}
+				dd.S = calendar.NewSolarFromYmd(c.y, c.m, c.d)
+				days[i] = dd
+			}
+			for a := range alpha {
+				for b := range alpha {
+					if a == b || days[a] == nil || days[b] == nil {
+						continue
+					}
+					c12Birth(w, days[a], alpha[a].t, a)
+					c12Birth(w, days[b], alpha[b].t, b)
+					w.R.Transitions++
+				}
+			}
+		}
+	}
 }
 
 func c12Birth(w *W, d *Day, t hms, ti int) {
